@@ -91,6 +91,20 @@ func GenConcScript(r *Rng, stress bool, hist map[string]int) []string {
 			add("dump")
 			continue
 		}
+		if r.Chance(1, 6) {
+			// a Merge with another client's Gets issued at every step of it (keys written last live in the
+			// file the merge rotates out)
+			for i := 1 + r.Intn(4); i > 0; i-- {
+				add("put %s %s", keys[r.Intn(3)], val())
+			}
+			if r.Chance(1, 3) {
+				add("del %s", keys[r.Intn(3)])
+			}
+			add("mergeget")
+			hist["conc_merge_with_reads"]++
+			add("dump")
+			continue
+		}
 		if r.Chance(1, 3) {
 			// a writer parked inside its critical section
 			label := r.PickS("put.appended", "delete.checked", "delete.appended")
